@@ -140,6 +140,12 @@ class Subject:
             d = {}
             for num, v in op["members"]:
                 d[self.names[num]] = _json_leaf(self.b, self.mi.field(num), v)
+            if op.get("nulls"):
+                # JSON null for other members: "not set" -- it never selects a member and never unselects one
+                given = {n for n, _ in op["members"]}
+                for n in sorted(self.group_of):
+                    if n not in given and (n + len(op["members"])) % 3 == 0:
+                        d = {self.names[n]: None, **d} if n % 2 else {**d, self.names[n]: None}
             if op["form"] == "class":
                 self.m = self.cls.from_dict(d)
                 self.sel = {g: None for g in self.mi.oneofs}
@@ -404,7 +410,7 @@ def random_history(b, mi, rng, g: Gen, one_member_per_group: bool = False):
                     continue
                 used.add(group_of[n])
                 ms.append((n, val(n)))
-            ops.append({"op": "from_dict", "form": form, "members": ms})
+            ops.append({"op": "from_dict", "form": form, "members": ms, "nulls": rng.random() < 0.4})
         elif r < 0.80:
             ms, used = [], set()
             for _ in range(rng.randint(0, 3)):
